@@ -44,3 +44,4 @@ let lossy_rt (fs : string list) : string =
 let () = register "lossy-parse" lossy_parse
 let () = register "lossy-wf" lossy_parse
 let () = register "lossy-rt" lossy_rt
+let () = register "lossy-rt-any" lossy_rt
